@@ -649,7 +649,9 @@ func (w *world) run(cfg config, feat bool, o *opReq, t *table, subs []submission
 				decs[k] = w.dec.decodeWS(*s.WS, w.caseNo)
 				// a subscription is answered asynchronously; a message the decoder does not hand to
 				// HandleStart is not answered at all, so there is nothing to wait for
-				async := o.Sub && len(decs[k].List) > 0 && decs[k].List[0].Sym == "start"
+				// (an alias envelope may select another operation of the document than the case's: any
+				// started document that mentions a subscription is awaited by its own complete)
+				async := (o.Sub || strings.Contains(s.WS.Raw, "subscription")) && len(decs[k].List) > 0 && decs[k].List[0].Sym == "start"
 				for _, v := range variants {
 					obs[k] = append(obs[k], v.serveWS(*s.WS, feat, async, w.caseNo).sexp())
 				}
@@ -718,6 +720,7 @@ func main() {
 			return func() string { n++; return fmt.Sprintf("c%d-%d%s", idx, n, special[(idx+n)%len(special)]) }
 		}
 		cfgs := allConfigs()
+		deepLimit = h.Thorough()
 
 		// 1. exhaustive: every configuration x feature state x base operation, all canonical envelopes
 		for _, cfg := range cfgs {
